@@ -339,7 +339,7 @@ class FakeRepo:
     def baseline(self, cwd):
         """Record the current directory content as the committed content."""
         snap = invoker.snapshot(cwd)
-        self.committed = {p: hashlib.sha1(d or b"").hexdigest() for p, d in snap.items()}
+        self.committed = {p: hashlib.sha1(d or b"").hexdigest() for p, d in snap.items() if "\0" not in p}
 
     def working_tree_changes(self, cwd):
         """[(status letter, path)] for tracked files whose content differs from the last commit / baseline."""
